@@ -30,7 +30,7 @@ func init() {
 			"distinct_nontrivial = distinct scenarios in which at least two probes were invoked or competed (hash of the scenario).",
 		Assumptions: []string{
 			"priorities within one scenario are distinct from each other and from the built-ins' values (the order among equal priorities is not documented)",
-			"probe block/inline parsers declare CanInterruptParagraph/CanAcceptIndentedLine = true so that only priority decides whether they are tried",
+			"probe block/inline parsers declare CanInterruptParagraph/CanAcceptIndentedLine = true so that only priority decides whether they are tried; the block-shared-trigger category varies CanInterruptParagraph and models it (c20shared.go)",
 		},
 		Run: runC20,
 		Exhaustive: func(tier string) string {
@@ -41,7 +41,7 @@ func init() {
 		},
 		Floors: func(m *Merged) []string {
 			var out []string
-			for _, k := range []string{"block", "block-free", "inline", "paragraph-transformer", "ast-transformer", "renderer", "no-renderer-kind", "late-kind"} {
+			for _, k := range []string{"block", "block-free", "block-shared-trigger", "inline", "paragraph-transformer", "ast-transformer", "renderer", "no-renderer-kind", "late-kind"} {
 				if m.Sets["categories"][k] == 0 {
 					out = append(out, "category never exercised: "+k)
 				}
@@ -642,6 +642,32 @@ func runC20(c *core.Ctx) {
 			}
 		}
 	}
+	// probes that share '-', '=' and ':' with built-in parsers, may or may not interrupt a paragraph, and compete for a line
+	// that follows a paragraph which persists or which a paragraph transformer takes away (c20shared.go)
+	c20Shared(c, func(s c20SScenario) {
+		idx++
+		if !c.Mine(idx) {
+			return
+		}
+		d, events := c20SRun(s)
+		c.Eval()
+		c.Observe("categories", "block-shared-trigger")
+		c.Count("log_entries_checked", int64(len(events)))
+		c.Count([]string{"shared_trigger_line_follows_nothing", "shared_trigger_line_follows_a_paragraph_that_stays", "shared_trigger_line_follows_a_paragraph_that_is_transformed_away"}[c20SDocs[s.Doc].Para], 1)
+		if len(events) >= 2 {
+			c.Sig(core.HashStr(s.String()))
+		}
+		if c.WantSample() && idx%4001 == 0 {
+			c.Sample(map[string]any{"scenario": s.String(), "invocations": events})
+		}
+		if d != "" {
+			what := "order"
+			if strings.HasPrefix(d, "panic") {
+				what = "panic"
+			}
+			c.Violation(&core.Violation{Class: "priority-" + what, Locus: "block-shared-trigger", Script: s, Detail: s.String() + "\n=> " + d})
+		}
+	})
 	c.Count("scenarios", int64(idx))
 
 	// kinds without a renderer function
